@@ -21,6 +21,38 @@ CHECKS = {
    technique='TLA+ model checking (Dispatch.tla: HookOnce, VetoStops, CallerVetoStops, Scoped) with replay and TLC trace validation of hook order / veto rules (PDispatch.tla)',
    text='For every scenario the recorded (plugin, stage) sequence on both sides must equal the documented stage and registration order computed by the specification (global-left, group, handler, global-right; cut at a veto), plugins outside the matched chain must stay silent, a pre-handler veto must prevent the handler and become the caller status, a vetoing pre-write hook must leave nothing on the wire.',
    note='Plugins are registered before the routes exist; three stage profiles per plugin; at most one veto per scenario.'),
+ 'C05': dict(level='exploration', engine='data', design='7 (C05), 6 (Wire.tla)',
+   technique='TLA+-enumerated message vector space with per-protocol supported-field oracle (Wire.tla); Pack/Unpack of every vector on the real protocols; outcomes validated by TLC against PCase.tla',
+   text='Wire.tla enumerates every message vector differing from the default message in at most K fields (K=2 quick, 3 thorough) over field classes (sequence extremes, method/meta/status byte classes and boundary lengths, body classes up to 65535 bytes, codec ids, filter pipes) for six protocols and three chunkings; each is packed with ONE protocol instance inside a three-frame stream, unpacked from a chunking reader and compared field by field, including frame sync and size independence from preceding traffic.',
+   note='Small-scope hypothesis (K fields differ at once); http and thrift-struct protocols are not driven; concretisation is seeded (3 seeds in the thorough tier).'),
+ 'C11': dict(level='exploration', engine='data', design='7 (C11), 6 (Codec.tla)',
+   technique='TLA+ shape grammar and capability matrix (Codec.tla); reflect-built values round-tripped through the real codecs, garbage decoding with sentinel words; outcomes validated by TLC against PCase.tla',
+   text='Codec.tla enumerates shapes (scalars at extremes, string classes, slices, fixed arrays, structs of up to three representative fields, nesting) within each codec\'s documented domain; the harness builds the Go types with reflect, requires DeepEqual after decode(encode(v)) including element order, and decodes empty / random / every truncation / one flipped bit per offset / overflowing / wrongly typed inputs requiring an error or a value, no panic and untouched sentinel words around the destination.',
+   note='Memory safety is observed only through the two sentinel words and Go\'s own bounds checks; protobuf / thrift use the message types shipped in the repository.'),
+ 'C12': dict(level='exploration', engine='data', design='7 (C12), 6 (Xfer.tla)',
+   technique='TLA+-enumerated pipes with expectation classes (Xfer.tla); OnPack/OnUnpack, protocol Pack/Unpack and end-to-end reply frames on the real code; outcomes validated by TLC against PCase.tla',
+   text='All pipes of length <= 4 over gzip (two levels) and md5 x five payload classes must invert exactly; long pipes by pattern up to 255, length 256 and unregistered ids must be refused (also when patched into a raw / json frame); every single-byte corruption (3 masks per offset), truncation and extension of md5-outermost packed payloads must be detected; a reply must travel through the pipe of its call (frames captured on the wire).',
+   note='Corruption enumeration is exhaustive for payloads up to 200 bytes only.'),
+ 'C15': dict(level='model_checking', engine='generic(hist)', design='7 (C15), 6 (History.tla)',
+   technique='TLC-enumerated operation histories (History.tla) replayed in one process with a sentinel snapshot after every operation; TLC trace validation against PHistory.tla',
+   text='Every history of at most 2 (quick) / 3 (thorough) operations over a 13-operation alphabet (direct and proxied traffic, backend failures, closed sessions, unknown routes, undecodable bodies, panics, auth / overload / secure rejections) is executed in one process; after each operation every package-level status is snapshotted through a verif accessor and four failing probes are repeated: snapshot and probe triples must never change.',
+   note='The snapshot covers the statuses declared in status.go and session.go; a shared status created elsewhere would be seen only through the probes.'),
+ 'C16': dict(level='model_checking', engine='generic(auth)', design='7 (C16), 6 (Accept.tla)',
+   technique='TLA+ model of the accept phase (Accept.tla, TLC exhaustive) with every terminal state replayed by a scripted raw client; TLC trace validation against PAuth.tla',
+   text='Accept.tla models ServeConn with the checker and one other accept hook; TLC checks that no reader, handler or index entry exists without a completed exchange; all 440 scenarios (11 first-message classes x pipelining x timing x other-hook placement/verdict) are replayed against a real peer with the shipped plugin and a recording plugin on every stage.',
+   note='ServeConn path only (ListenAndServe differs in the order of index insertion and status change and is not driven).'),
+ 'C17': dict(level='model_checking', engine='generic(secure)', design='7 (C17), 6 (Secure.tla)',
+   technique='Complete marker matrix with oracle (Secure.tla) replayed between two real peers with the shipped plugin over byte-capturing connections; TLC trace validation against PSecure.tla',
+   text='All 672 cells (kind x secure marker x accept-secure x enforced secure reply x equal/different keys x key length x codec x body class) are executed; the captured bytes are searched for the random tags, handler invocation and caller status are compared with the oracle.',
+   note='Cipher strength is out of scope; secure request + accept-secure=false is unconstrained.'),
+ 'C18': dict(level='model_checking', engine='generic(overload)', design='7 (C18), 6 (Overload.tla)',
+   technique='TLA+ models of the connection limiter (histories, Overload.tla; atomic interleavings, OverloadAtomic.tla) with every history transition replayed on a real peer with the shipped plugin; TLC trace validation against POverload.tla',
+   text='Every transition of the history model (connect, concurrent bursts, disconnect, close, raise of the limit; limit 1-3, up to 7 operations) is replayed with a probe of CountSession and of the number of sessions able to complete a call after each operation; admission must equal min(k, free slots). Rate limit: bursts of concurrent calls against the real ticker with the token-bucket bound and error replies for rejected calls.',
+   note='Atomic interleavings of take/release are model-checked at design level and exercised by concurrent bursts, not replayed step by step; timing bound carries one tick of slack.'),
+ 'C19': dict(level='exploration', engine='generic(proxy)', design='7 (C19), 6 (Proxy.tla)',
+   technique='Request space with metamorphic oracle (Proxy.tla): each case sent through a real proxy peer and directly to the backend; TLC trace validation against PProxy.tla',
+   text='264 cases (kind x backend method outcome x codec x request metadata x reply metadata x body class x backend failure) with three real peers; proxied status, body and reply metadata must equal the direct ones, the backend must be entered exactly once and see the real-IP metadata exactly when absent, backend failures must give 502 on that call only.',
+   note='One proxy hop; backend chosen by a fixed forwarder.'),
  'C02': dict(level='model_checking', engine='sess', design='7 (C02), 6 (Session.tla)',
    technique='TLA+ model checking (Session.tla, TLC exhaustive + liveness) bound to the code by strict hold-point replay of TLC behaviours and TLC trace validation (PSession.tla) of recorded executions',
    text='Every interleaving of call issue / write / reply arrival / Close / connection loss / hostile reply for 2 calls + 1-2 inbound calls + 1-2 Close invocations is model-checked (NoHang, DoneAtMostOnce, liveness under weak fairness); TLC-generated behaviours are replayed step by step on the real session with the projected state compared after each step, and every recorded execution (strict and free-running) is validated by TLC against the completion rules of the Layer P trace specification.',
@@ -64,6 +96,12 @@ def main():
              'kind_free_text': 'TLC model checking of spec/Hub.tla (session index under operation histories incl. running handlers and blocked takeovers); one scenario per explored transition replayed by harness driver hub; TLC trace validation against spec/PHub.tla'},
             {'name': 'disp', 'path': 'lib/eng_disp.py', 'serves_properties': ['C03', 'C04', 'C09'],
              'kind_free_text': 'TLC model checking of spec/Dispatch.tla; every terminal state replayed by harness driver disp; TLC trace validation against spec/PDispatch.tla'},
+            {'name': 'data', 'path': 'lib/eng_data.py', 'serves_properties': ['C05', 'C11', 'C12'],
+             'kind_free_text': 'generator specifications spec/Wire.tla, spec/Codec.tla, spec/Xfer.tla (abstract case space + expectation class); driver data; TLC validation against spec/PCase.tla'},
+            {'name': 'generic', 'path': 'lib/eng_generic.py', 'serves_properties': ['C15', 'C16', 'C17', 'C18', 'C19'],
+             'kind_free_text': 'model check + export of terminal transitions (History/Accept/Secure/Overload/Proxy .tla), replay by the matching harness driver, TLC trace validation against the matching P*.tla'},
+            {'name': 'plug', 'path': 'lib/eng_plug.py', 'serves_properties': ['C09'],
+             'kind_free_text': 'plugin placement trees from spec/Plugins.tla replayed by driver plug; TLC trace validation against spec/PPlug.tla'},
             {'name': 'corr', 'path': 'lib/eng_corr.py', 'serves_properties': ['C01'],
              'kind_free_text': 'configuration space from spec/Workload.tla; concurrent tagged workloads (driver corr); TLC trace validation against spec/PCorr.tla'},
             {'name': 'sess', 'path': 'lib/eng_sess.py', 'serves_properties': ['C02', 'C07', 'C08'],
